@@ -35,6 +35,7 @@ DECIDING = {
     "pairs_dotted_key": "dotted keys present",
     "pairs_shared_subobject": "same object reachable from both arguments",
     "contract_evaluations": "icontract post-condition evaluated on the real function",
+    "suite_contract_evaluations": "post-condition evaluated on the merges asphalt itself performs while the repository's test-suite runs",
 }
 ASSUMPTIONS = [
     "keys are str (a few int); values that are Mapping but not dict are not generated (DESIGN.md section 4)",
@@ -74,7 +75,7 @@ def universe() -> list[Any]:
 def plan(tier: str) -> dict[str, Any]:
     n_enum = len(universe())
     n_rand = 400 if tier == "quick" else 60000
-    return {"cases": n_enum + n_rand, "n_enum": n_enum, "budget_s": 60 if tier == "quick" else 900,
+    return {"cases": n_enum + n_rand + 1, "n_enum": n_enum, "budget_s": 60 if tier == "quick" else 900,
             "min_per_shard": 40, "min_cases": n_enum}
 
 
@@ -84,6 +85,8 @@ def exhaustive(tier: str) -> bool:
 
 def gen_case(idx: int, seed: int, tier: str) -> Any:
     n_enum = len(universe())
+    if idx == plan(tier)["cases"] - 1:
+        return {"kind": "suite"}  # the repository's own tests as one more workload, with the contract on
     if idx < n_enum:
         return {"kind": "enum", "orig_index": idx}
     return {"kind": "random", "seed": f"{seed}:{idx}", "pairs": 50}
@@ -177,6 +180,14 @@ def check_pair(merge: Any, a: Any, b: Any, cnt: collections.Counter, aliasing: b
 def run_case(case: Any) -> dict[str, Any]:
     import copy
 
+    if case["kind"] == "suite":
+        from monitors.suite_run import run_suite_with_contracts
+
+        r = run_suite_with_contracts("merge_config")
+        vs = [{"key": p.get("key"), "msg": "icontract post-condition fired while running the repository's tests: " + p.get("msg", ""), "witness": p}
+              for p in r["problems"][:3]]
+        return {"violations": vs, "sig": "suite", "nontrivial": False, "counters": {"suite_contract_evaluations": r["evaluations"], "suite_runs": int(r["ran"])},
+                "sample": None}
     contracts.install_merge_contract()
     from asphalt.core import _utils
 
